@@ -15,7 +15,9 @@ package stdlib_contracts
 //   a == b*tquo(a,b) + trem(a,b),  |trem(a,b)| < |b|,  trem(a,b) is zero or has the sign of a
 //@ spec tquo(a int, b int) int
 //@ spec trem(a int, b int) int
-//@ spec tdivfacts(a int, b int) bool = a == b*tquo(a, b) + trem(a, b) && abs(trem(a, b)) < abs(b) && (a >= 0 ==> trem(a, b) >= 0) && (a <= 0 ==> trem(a, b) <= 0)
+// (the defining equation a == b*tquo(a,b) + trem(a,b) is left out of the facts handed to the solver:
+// it is nonlinear and no obligation here needs it; what is used is the range and sign of the remainder)
+//@ spec tdivfacts(a int, b int) bool = abs(trem(a, b)) < abs(b) && (a >= 0 ==> trem(a, b) >= 0) && (a <= 0 ==> trem(a, b) <= 0)
 // imul(a, b) is a*b: the product under a name, so that a goal about "the same product" is settled
 // by congruence; the Mul contract states imul(a, b) == a*b
 //@ spec imul(a int, b int) int
@@ -156,12 +158,14 @@ package stdlib_contracts
 
 // ModInverse(g, n): nil when g and n are not relatively prime, else the inverse in [1, |n|)
 //@ spec coprime(a int, b int) bool
+// isInverse(r, g, n): r*g is congruent to 1 modulo |n| (uninterpreted: matched by name)
+//@ spec isInverse(r int, g int, n int) bool
 //@ func (*Int).ModInverse
 //@ assumed
 //@ requires[nopanic] z != nil && g != nil && n != nil
 //@ modifies z.v
 //@ ensures (result == nil) == !coprime(old(g.v), old(n.v))
-//@ ensures result != nil ==> result == z && 0 <= z.v && z.v < abs(old(n.v)) && mod(z.v * old(g.v), abs(old(n.v))) == mod(1, abs(old(n.v)))
+//@ ensures result != nil ==> result == z && 0 <= z.v && z.v < abs(old(n.v)) && isInverse(z.v, old(g.v), old(n.v))
 
 //@ func (*Int).Sign
 //@ assumed
